@@ -251,6 +251,8 @@ def hoist_suspensions(fn):
         v = whole(s)
         if v is None:
             return None
+        if isinstance(s, ast.Return) and isinstance(v, ast.Yield):
+            return v            # `return (yield X)`: name the answer
         for n in _walk_no_nested(v):
             if n is v:
                 continue
@@ -400,6 +402,10 @@ def normalise(fn, world=None, modname=None, cls=None, primitives=(),
         fn = desugar_conditional_with(fn)
         ast.fix_missing_locations(fn)
     if aliases == "params":
+        if any(isinstance(n, (ast.Yield, ast.YieldFrom, ast.Await))
+               for n in ast.walk(fn)):
+            fn = hoist_suspensions(acopy(fn))
+            ast.fix_missing_locations(fn)
         fn = propagate_aliases(fn, only_params=True)
         ast.fix_missing_locations(fn)
     elif aliases:
